@@ -61,6 +61,7 @@ def check(repo, rep, tier):
     rc.r_chart(m, rep, 'R1.3')
     rc.r_search_loop(m, rep, 'R1.3')
     rc.r_heads(m, rep, 'R1.2')
+    rc.r_items_immutable(m, rep, 'R1.2')
     head_uniformity(repo, rep)
     rep.floor('agenda push sites', len(m.sites), 5)
     rep.floor('binary push sites', len(m.by_kind.get('binary', [])), 2)
